@@ -83,6 +83,10 @@ def class_source(prog, ci, S, direct=False):
     L.append("    v: int = 0")
     if prog.get("kinds"):
         L.append(f"    kind: Literal['c{ci}'] = 'c{ci}'")
+    if c.get("finals"):
+        # annotations that describe the field rather than its type (they reach the library as strings under postponed evaluation)
+        L.append("    fz: Final[int] = 5")
+        L.append("    cv: ClassVar[int] = 3")
     if c.get("disc"):
         # a union over two other classes, told apart by their constant field
         a_, b_ = f"C{c['disc']['a']}{S}", f"C{c['disc']['b']}{S}"
@@ -112,6 +116,9 @@ def class_source(prog, ci, S, direct=False):
         L.append(f"    r{fi}: {a}{default_for(cont)}")
     if c.get("lim"):
         a = f"PosI{S}" if direct else repr(f"PosI{S}")
+        if c.get("lim_opt"):
+            # the constrained name sits inside Optional[...]: the field's own bounds meet a reference, not a type
+            a = f"Optional[{a}]"
         L.append(f"    lim: {a} = Field(lt=10, default=1)")
         if c.get("lim2"):
             # the same name once more, with other constraints
@@ -125,7 +132,7 @@ def class_source(prog, ci, S, direct=False):
 
 
 HEADER = ("from utype import Schema, DataClass, Field, Options, Rule\nimport utype\n"
-          "from typing import List, Dict, Optional, Union, Iterator, Generator, Literal, Tuple\nfrom utype.utils.compat import Self\n")
+          "from typing import List, Dict, Optional, Union, Iterator, Generator, Literal, Tuple, Final, ClassVar\nfrom utype.utils.compat import Self\n")
 
 
 def alias_source(S):
@@ -225,6 +232,8 @@ def model_class(prog, ci, data, depth=0):
     c = prog["classes"][ci]
     out = []
     out.append(["v", _to_int(data.get("v", 0))])
+    if c.get("finals"):
+        out.append(["fz", 5])
     if prog.get("kinds"):
         if data.get("kind", f"c{ci}") != f"c{ci}":
             raise Reject()
@@ -536,6 +545,10 @@ def generate(rng, tier):
     for c_ in classes:
         if c_.get("lim") and rng.random() < 0.6:
             c_["lim2"] = True
+        elif c_.get("lim") and rng.random() < 0.6:
+            c_["lim_opt"] = True
+        if rng.random() < 0.2:
+            c_["finals"] = True
     for ci in range(n):
         # (acyclic programs: only forward in the topological sense, so that the direct twin can be written)
         cands = [t for t in no_req if not dag or t > ci]
